@@ -124,7 +124,7 @@ static int replay(const std::string& genpath, const std::string& outpath) {
   auto dead = [&](long k, const std::string& kind) {
     return "{\"e\":\"Run\",\"gen\":" + gen[k] + ",\"fed\":" + c17::jstr(text_of(k)) + ",\"obs\":{\"verdict\":\"abort\",\"kind\":" + c17::jstr(kind) + ",\"vars\":{}}}";
   };
-  c17::run_guarded((long)gen.size(), outpath, 5, item, dead);
+  c17::run_guarded((long)gen.size(), outpath, 20, item, dead);
   return 0;
 }
 
@@ -169,16 +169,18 @@ static void make_mutations(HdrCase& c, int level) {
   add("none", 0, n, 0, {}, c.nl);
   for (int k = 1; k <= n; ++k) {
     const std::string& L = c.lines[k - 1];
+    // quick level: the (indented) scanner parameter block gets a thinner set of edits
+    const bool thin = level == 0 && L.size() > 2 && L[0] == ' ' && k % 3 != 0;
     add("delete", k, k - 1, 1, {}, c.nl);
-    add("dup", k, k, 0, { L }, c.nl);
+    if (!thin) add("dup", k, k, 0, { L }, c.nl);
     add("truncate", k, k - 1, n - k + 1, {}, true);            // header = lines 1..k-1
     if (level > 0 || k % 3 == 0) add("truncate_nonl", k, k, n - k, {}, false);   // lines 1..k, no final newline
-    if (k < n) add("swap", k, k - 1, 2, { c.lines[k], L }, c.nl);
+    if (k < n && !thin) add("swap", k, k - 1, 2, { c.lines[k], L }, c.nl);
     const auto as = L.find(":=");
     if (as == std::string::npos) continue;
     const std::string key = L.substr(0, as), val = trim(L.substr(as + 2));
     // keyword respelled: case, white space, underscores, exclamation mark
-    {
+    if (!thin) {
       std::string r = "!";
       for (char ch : key) { if (ch == ' ') r += (r.size() % 2 ? "_" : "  "); else if (ch != '!') r += (char)toupper((unsigned char)ch); }
       add("respell", k, k - 1, 1, { r + ":=" + L.substr(as + 2) }, c.nl);
@@ -203,6 +205,7 @@ static void make_mutations(HdrCase& c, int level) {
       vals = { "", "nonsense", "0", "-1" };
     } else
       vals = { "1" };
+    if (thin) vals = { "0", "2000000000", "" };
     for (auto& v : vals) add("value", k, k - 1, 1, { key + ":= " + v }, c.nl);
   }
   // every byte of the last line
@@ -378,7 +381,7 @@ static int hdr_mode(const std::string& work, const std::string& outpath, int lev
     const std::string zeros = c.kind == "image" ? ",\"x\":0,\"y\":0,\"z\":0,\"minx\":0,\"miny\":0,\"minz\":0}" : ",\"segs\":0,\"views\":0,\"bins\":0,\"tof\":0,\"axial\":[],\"readok\":false}";
     return head(k) + "\"obs\":{\"verdict\":\"abort\",\"kind\":" + c17::jstr(kind) + ",\"msg\":\"\"" + zeros + "}";
   };
-  c17::run_guarded((long)items.size(), outpath, 10, item, dead);
+  c17::run_guarded((long)items.size(), outpath, 60, item, dead);
   return 0;
 }
 
@@ -459,7 +462,7 @@ static int roundtrip(const std::string& outpath) {
   auto dead = [&](long k, const std::string& kind) {
     return head(k) + "\"abort\":" + c17::jstr(kind) + ",\"constructed\":false,\"parsed\":false,\"why\":\"\",\"t1\":[],\"t2\":[]}";
   };
-  c17::run_guarded((long)items.size(), outpath, 3, item, dead);
+  c17::run_guarded((long)items.size(), outpath, 30, item, dead);
   return 0;
 }
 
